@@ -66,6 +66,17 @@ def special_xs(rng, n, m, count):
     return [x for x in xs if 0.0 <= x <= 1.0]
 
 
+def scribbled(lo, up):
+    """bounds as float64 arrays for the Evolvent; returns (lo_arr, up_arr, scribble) - call scribble() after handing them over:
+    the caller reuses / overwrites its own arrays, the configured bounds are the values at configuration time"""
+    la, ua = np.array(lo, dtype=np.double), np.array(up, dtype=np.double)
+
+    def scribble():
+        la[:] = la * 3.0 + 17.0
+        ua[:] = ua * 0.5 - 5.0
+    return la, ua, scribble
+
+
 class EvoRecorder:
     """One real Evolvent object; every query is logged as an event (exact rationals)."""
 
@@ -74,9 +85,13 @@ class EvoRecorder:
         if rebound_from is not None:
             lo0, up0 = rebound_from
             self.ev = Evolvent(lo0, up0, n, m)
-            self.ev.SetBounds(lo, up)
+            la, ua, scribble = scribbled(lo, up)
+            self.ev.SetBounds(la, ua)
+            scribble()
         else:
-            self.ev = Evolvent(lo, up, n, m)
+            la, ua, scribble = scribbled(lo, up)
+            self.ev = Evolvent(la, ua, n, m)
+            scribble()
         self.lo, self.up = list(lo), list(up)
         self.events = events
         self.idgen = idgen
@@ -85,7 +100,9 @@ class EvoRecorder:
         return {"id": next(self.idgen), "op": op, "n": self.n, "m": self.m, "lo": qv(self.lo), "up": qv(self.up)}
 
     def set_bounds(self, lo, up):
-        self.ev.SetBounds(lo, up)
+        la, ua, scribble = scribbled(lo, up)
+        self.ev.SetBounds(la, ua)
+        scribble()
         self.lo, self.up = list(lo), list(up)
 
     def image(self, x, log=True):
